@@ -15,6 +15,8 @@ DIRECTED = [
      [{'all': False, 'check': 'CheckECKeySmallDifference', 'batch': ['s1', 's2']}, {'all': False, 'check': 'CheckWeakECPrivateKey', 'batch': ['s2', 's1']}]),
     ('ec', 'unreduced-duplicate', {'s1': 'healthy', 's2': 'unreducedx1', 's3': 'healthy384'},
      [{'all': False, 'check': 'CheckECKeySmallDifference', 'batch': ['s1', 's2', 's3']}, {'all': True, 'check': 'ALL', 'batch': ['s2', 's1']}]),
+    ('ec', 'negative-logarithms', {'s1': 'weakprivateneg', 's2': 'weakprivate', 's3': 'weakprivatetop', 's4': 'healthy'},
+     [{'all': False, 'check': 'CheckWeakECPrivateKey', 'batch': ['s1', 's4']}, {'all': True, 'check': 'ALL', 'batch': ['s2', 's1', 's3']}]),
     ('ec', 'unreduced-zero', {'s1': 'zero', 's2': 'unreduced1'}, [{'all': False, 'check': 'CheckECKeySmallDifference', 'batch': ['s1', 's2']}]),
     ('ecdsa', 'many-honest-one-issuer', {'s1': 'healthy12', 's2': 'healthyA'},
      [{'all': False, 'check': 'CheckNonceGeneralized', 'batch': ['s1']}, {'all': True, 'check': 'ALL', 'batch': ['s2', 's1']}]),
